@@ -5,6 +5,21 @@ import os
 ROOT = os.path.dirname(os.path.dirname(os.path.abspath(__file__)))
 
 CHECKS = {
+ "C08": dict(
+    text="Partial. Theorems C08_callback_grammar (for every history of accept/data/EOF/error/idle-time-out/write-failure events and every descriptor, the callbacks follow (connection input* disconnection release)* and the peer table holds exactly the descriptors still connected), C08_every_prefix_well_formed, C08_once_each (disconnections = releases = connections, +1 while open), C08_no_peer_left, C08_peer_table_has_no_duplicates, by induction over event histories of the worker's transition system. Tied to /repo by live listeners (raw Tcp::Handler and Http::Endpoint with 600 ms time-outs, 1-3 workers, 1-12 concurrent clients per round, up to 30 rounds) whose per-peer callback logs, callbacks-after-disconnection count and /proc/self/fd delta against the idle baseline are compared with the model's log of the same history. Residue: descriptor release is observed through /proc/self/fd, epoll interest and close() are not instrumented; kernel event delivery is the oracle.",
+    note="Closed under the global context. Trusted: harness/h_lifecycle.cc, the behaviour->event translation in ocaml/driver.ml (lifecycle_case).",
+    technique="Coq proof (invariant by induction over connection-event histories) + differential correspondence of callback logs and descriptor balance on live listeners",
+    design="§2 C08"),
+ "C05": dict(
+    text="Partial. Theorems C05_emitted_is_rendering (whatever the fixed-length writer emits is exactly the rendering status line/headers/cookies/Content-Length/blank line/body, the reported size is its length and fits the cap), C05_refused_iff_too_large (refused with nothing emitted exactly when the rendering exceeds the maximum response size), C05_exact_at_cap (size = cap accepted, cap-1 refused), C05_framing (Content-Length = |body|, blank line, body at the end), for every code, header list, cookie list and body. That the real writer's bytes ARE this rendering, that streamed responses are chunked coding whose decoded chunks equal the data written (independent de-chunker in the model), and that client requests are well-formed is decided by the correspondence check on bytes captured from a live endpoint / from Http::Client.",
+    note="Closed under the global context. Chunked streams have an executable model and Examples, no general theorem. Trusted: harness/h_wire.cc, canonicalisation of header order in ocaml/driver.ml.",
+    technique="Coq proof (size-cap decision and framing of the writer model) + differential correspondence on bytes captured from a live endpoint",
+    design="§2 C05"),
+ "C02": dict(
+    text="Partial. Theorems C02_request_framing_with_body / _without_body (what the client writes is request line+cookies+headers, User-Agent, Host, Content-Length = |body|, blank line, body) and C02_response_framing, for every method, path, query, cookies, headers and body. No theorem composes the serialiser model with the parser model end to end; the end-to-end statement is decided by the live correspondence check: requests built with the client builder are captured from the socket, compared with the model and parsed by the real server parser; responses from a live endpoint are read back. Uses C01 (segmentation independence) and the value round trips C16-C18.",
+    note="Closed under the global context. Trusted: harness/h_wire.cc (Q mode), tools/gen_tables.py.",
+    technique="Coq proof (framing of both serialisers) + differential correspondence on captured client requests and endpoint responses",
+    design="§2 C02"),
  "C06": dict(
     text="Partial. Theorems C06_stream_and_settle_once (for every queue of writes and every pattern of short writes and would-blocks over the successive send calls: received ++ pending = concatenation of the buffers in issue order; a promise settled at most once and never while queued) and C06_fulfilled_with_full_size, by induction over the drain loop against an arbitrary socket oracle. Tied to /repo by scripting the outcome of every send call of a live Transport through the PISTACHE_VERIF hook (all scripts up to 3-4 outcomes, loop thread and foreign thread) and comparing bytes, promise values and call counts. Residue: kernel buffering/real EAGAIN timing is the oracle; liveness is observed, not proved; sendfile buffers not exercised.",
     note="Closed under the global context. The cross-thread queue is taken as FIFO (C13). Trusted: harness/h_transport.cc, hook in transport.cc.",
